@@ -67,6 +67,11 @@ CHECKS = {
    text="For every twin pair of corpus descriptions the extracted encoder and decoder layouts are identical except the byte "
         "order tag of multi-byte accesses, which is little vs big; single bytes, byte arrays, payload and padding identical.",
    ref="7/C17"),
+ "C06": dict(level="translation_validation", technique="abstract evaluation of the generated specialize() match over its finite partition vs a reference specialisation function; constraint-check and conversion inventories",
+   text="specialize() of every parent is evaluated with first-match semantics on every cell of the partition induced by "
+        "its literals (values and payload lengths) and compared with the reference specialisation computed from the "
+        "description; decode_partial checks each local constraint with the right value before parsing; child-to-parent "
+        "conversions pin constrained fields to their values and copy the rest.", ref="7/C06"),
 }
 NOT_APPLICABLE = {
  "C19": "Java backend: no Java front-end to the abstract interpreter can be built and validated in this sandbox "
